@@ -115,6 +115,16 @@ check("C16", "repositories isolated; storage access stays inside the root", "exp
       "DESIGN.md §3 C16",
       [R("^TestC16$", 1200, 40000, steps=30)], variant="vfs")
 
+check("C10", "the directory is a valid OCI layout equal to the API state", "exploration",
+      "rapid state machine; oracle = OCI-layout validator after every step + index.json/API/model equality + dir-vs-mem, restart and mem-over-dir differentials",
+      "Randomised stateful search on the dir store with a mem store driven in lock-step (nested names, three digest algorithms, indexes, artifacts, sessions, deletes, collections with "
+      "EmptyRepo on/off at any step, restarts anywhere); after every step the tree is validated as an OCI layout and compared with the API and the model, and every read is compared "
+      "across dir/mem, across Close+reopen and against a mem store layered over the directory.",
+      "Trusted: the validator in harness/layout.go (written from the image-layout spec wording quoted by the property); by-digest visibility of manifests touched by open finding "
+      "orphaned-child (finding 12) is excluded from the differentials and counted.",
+      "DESIGN.md §3 C10",
+      [R("^TestC10$", 1000, 40000, steps=30)])
+
 NOT_APPLICABLE = {}
 
 # --------------------------------------------------------------------------- helpers
